@@ -28,9 +28,12 @@ def mk(h, k, st, salt=0):
     """decorated objects: every attribute carries a value derived from the handle"""
     n = (int(h[1:]) if h[1:].isdigit() else 0) + salt
     if k == "doc":
-        return odml.Document(author="author-" + h, version="v" + h, date=dt.date(2020, 1, 1 + n % 27), repository=None)
+        # a repository that only the Document defines is inherited by the Sections below, it is not an attribute of theirs
+        return odml.Document(author="author-" + h, version="v" + h, date=dt.date(2020, 1, 1 + n % 27),
+                             repository="file:///nonexistent/terminologies/doc-repo.xml" if salt % 2 else None)
     if k == "sec":
         return odml.Section(name=st["name"][h], type=st["type"][h], definition="def-" + h,
+                            repository="file:///nonexistent/terminologies/sec-repo.xml" if n % 4 == 1 else None,
                             reference="ref-" + h if n % 2 else None,
                             sec_cardinality=(None, 5) if n % 2 else None, prop_cardinality=(1, 7) if n % 3 == 0 else None)
     if k == "prop":
@@ -147,6 +150,33 @@ def replay(st):
                     yield {"fam": "clone", "src": "model", "t": "edit", "edit": e, "side": side, "x": x, "y": "y1",
                            "children": children, "keep": keep, "out": out2, "exc": exc2, "pre": pre2, "post": post2,
                            "touched": [hid[id(tgt)]]}
+        # a Document in which a link has been resolved (and the linking Section edited afterwards) is copied like any other
+        if kind == "doc":
+            for keep in (True, False):
+                objs = W.build(st, mk=mk)
+                tops = list(objs[x].sections)
+                pair = [(a, b) for a in tops for b in tops if a is not b and (len(b.sections) + len(b.properties))]
+                if not pair:
+                    break
+                a, b = pair[salt_of(st) % len(pair)]
+                try:
+                    a.link = b.get_path()
+                    gained = [c for c in list(a.properties) + list(a.sections) if c.name in [q.name for q in list(b.properties) + list(b.sections)]]
+                    if keep and len(gained) > 1:
+                        a.remove(gained[0])              # an edit after the link was resolved
+                except Exception:
+                    break
+                idtok = W.IdTok()
+                pre, objs = snap(objs, idtok)
+                out, exc, y = "ok", "none", None
+                try:
+                    y = objs[x].clone(keep_id=keep)
+                    objs["y1"] = y
+                except Exception as e:
+                    out, exc = "raised", type(e).__name__
+                post, objs = snap(objs, idtok)
+                yield {"fam": "clone", "src": "model", "t": "clone", "x": x, "y": "y1", "children": True, "keep": keep,
+                       "out": out, "exc": exc, "pre": pre, "post": post, "touched": [], "linked": True}
         # export_leaf
         if kind in ("sec", "prop"):
             objs = W.build(st, mk=mk)
